@@ -154,6 +154,7 @@ def run_b09(out, inputs=(), budget=20000, start_label=None, err=0, procs=None, t
     res["mismatches"] = m.mismatches
     res["shadow_runs"] = getattr(m, "shadow_runs", 0)
     res["shadow_failed"] = getattr(m, "shadow_failed", 0)
+    res["shadow_subscript"] = list(getattr(m, "shadow_subscript", []))
     res["store"] = b09i.dump_store(frame) if frame is not None else (
         b09i.dump_store(m._frame) if getattr(m, "_frame", None) is not None and m.depth == 0 else {})
     return res
